@@ -465,4 +465,8 @@ def run(ctx: Ctx):
         for col in c1.ao.collections:
             if col.ci.name == "AnnotationProjectAdapter":
                 c1.check_pair(col.ci.name, col.ci, col.D, col.O, "to_aoef", "to_soundevent", [], collection=True, only={"tasks", "clip_annotations"})
+            if col.ci.name == "EvaluationAdapter":
+                # the collection that loads clip evaluations and matches from a file: its reader must hand every one of them
+                # to the validating constructors (and not drop the ones that fail: rule G.7 on this module)
+                c1.check_pair(col.ci.name, col.ci, col.D, col.O, "to_aoef", "to_soundevent", [], collection=True, only={"clip_evaluations", "score"})
     return EXPLANATION, ASSUMPTIONS
